@@ -262,7 +262,9 @@ def check_case(case, rec):
             tf = Transformer(pattern, repl, delete_atoms=kw['delete_atoms'], automorphism_filter=False, fix_aromatic_rings=False)
             ok, prods1 = rec.guard('apply', lambda: list(tf(m)))
             ok2, prods2 = rec.guard('apply', lambda: list(tf(r)))
-            if ok and ok2 and len(prods1) <= 60:
+            if ok and ok2 and len(prods1) <= 60 and any(p.check_valence() for p in prods1 + prods2):
+                rec.count('renumbering clause skipped: the template makes valence-invalid products (labels on such atoms are undefined)')
+            elif ok and ok2 and len(prods1) <= 60:
                 a, b = set(_canon(p) for p in prods1), set(_canon(p) for p in prods2)
                 if a != b and not _gap([m] + prods1 + prods2):
                     rec.fail('renumbering', f'{label}: product set changes under renumbering: {sorted(a)[:3]} vs {sorted(b)[:3]}')
